@@ -17,6 +17,19 @@ def ret(v, path):
     return [('ret', v, path)]
 
 
+def strip_generics_c(ty):
+    depth = 0
+    out = ''
+    for c in ty:
+        if c == '<':
+            depth += 1
+        elif c == '>':
+            depth -= 1
+        elif depth == 0:
+            out += c
+    return out
+
+
 def fork2(ex, path, cond, v_true, v_false):
     out = []
     cond = z3.simplify(cond)
@@ -636,6 +649,13 @@ def c_opt_map(ex, st, args, path, callee):
     if o.variant == 'Err':
         return ret(o, path)
     wrapv = SOME if o.variant == 'Some' else OK
+    if '{closure@' not in callee and len(args) > 1 and isinstance(args[1], Opaque) and args[1].why.startswith('fnitem '):
+        path_ = strip_generics_c(args[1].why[7:]).split('::')
+        name = path_[-1].strip()
+        if name[:1].isupper() and len(path_) >= 2:        # tuple-variant / tuple-struct constructor
+            return ret(wrapv(Enum(name, [o.fields[0]], path_[-2].strip())), path)
+        outs = ex.call(st, args[1].why[7:], [o.fields[0]], path, 1)
+        return [('ret', wrapv(r[1]), r[2], r[3]) for r in outs]
     if '{closure@' not in callee:
         mm = re.search(r'::map::<[^,]+, (.+)>$', callee)
         if not mm:
@@ -818,6 +838,24 @@ def c_panic(ex, st, args, path, callee):
     return []
 
 
+def c_option_eq(ex, st, args, path, callee):
+    """std: `impl PartialEq for Option<T>`: same variant and, for Some, T::eq"""
+    a, b = d(ex, args[0]), d(ex, args[1])
+    if a.variant != b.variant:
+        return ret(z3.BoolVal(False), path)
+    if a.variant == 'None':
+        return ret(z3.BoolVal(True), path)
+    mm = re.match(r'^<(?:std::option::)?Option<(.+)> as PartialEq>::eq$', callee)
+    inner = mm.group(1)
+    mem = dict(st['mem'])
+    ex._tmp = getattr(ex, '_tmp', 0) + 1
+    ka, kb = ('tmp', ex._tmp, 'a'), ('tmp', ex._tmp, 'b')
+    mem[ka], mem[kb] = a.fields[0], b.fields[0]
+    st2 = dict(st)
+    st2['mem'] = mem
+    return ex.call(st2, f'<{inner} as PartialEq>::eq', [Ref(ka), Ref(kb)], path, 1)
+
+
 def c_ref_forward(ex, st, args, path, callee):
     """std blanket impls `impl PartialEq/PartialOrd/Ord for &A`: strip one reference level and dispatch again"""
     mm = re.match(r"^<&(?:'\w+ )?(?:mut )?(.+) as ((?:std::cmp::)?(?:PartialEq|PartialOrd|Ord))(<.*>)?>::(\w+)$", callee)
@@ -835,6 +873,7 @@ def c_ref_forward(ex, st, args, path, callee):
 
 
 CONTROL = [
+    ('Option<T> == Option<T> (std derive) via T::eq', r'^<(std::option::)?Option<.+> as PartialEq>::eq$', c_option_eq),
     ('&A: PartialEq/PartialOrd/Ord forwards to A', r"^<&(?:'\w+ )?(?:mut )?.+ as (std::cmp::)?(PartialEq|PartialOrd|Ord)(<.*>)?>::\w+$", c_ref_forward),
     ('Option::and_then (runs the repository closure)', r'^(std::option::)?Option::<.*>::and_then::<', c_and_then),
     ('Option/Result::map (runs the repository closure)', r'^(std::(option|result)::)?(Option|Result)::<.*>::map::<', c_opt_map),
